@@ -13,6 +13,13 @@ PUNCT = [c for c in ASCII if 33 <= ord(c) < 127 and not c.isalnum()]
 EXOTIC = PUNCT + [" ", " ", "\u001c", "\u0085", "　", "​", "Z", "A", "z", "0", "9", "~", "%", "é", "𝔘", "\r", "\x0b", "\x0c"]
 
 
+# names that carry a meaning somewhere (XML-reserved, URI schemes, common vocabularies, language keywords): a validator that
+# special-cases a NAME rather than a character class is not reached by class representatives
+NAMES = ["xml", "XML", "Xml", "xMl", "xmL", "xm", "xmla", "xmlns", "XMLSchema", "xsd", "rdf", "rdfs", "owl", "skos", "dc", "dcterms", "foaf", "http",
+         "https", "HTTP", "urn", "ftp", "mailto", "file", "data", "GO", "go", "CHEBI", "chebi", "doi", "DOI", "_", "_1", "a.b", "a-b", "obo.go", "NCBITaxon",
+         "UBERON", "MESH", "true", "false", "null", "None", "nan", "NaN", "inf", "id", "ID", "class", "type", "prefix", "base", "ns", "ns1", "nil", "x", "X", "bnode"]
+
+
 def mk(s: str):
     return [s, "".join(sorted({c for c in s if c.isspace()}))]
 
@@ -23,7 +30,7 @@ class C20(Plugin):
     prop = 20
     counts = {"quick": 20000, "thorough": 1000000}
     rule = ("every string of length <= 4 (quick) / <= 5 plus length 6 over an 8-symbol sub-alphabet (thorough) over one representative per "
-            "character class {letter, digit, '_', '.', '-', ':', '/', '#', space, tab, newline, '[', ']', non-ASCII letter, non-ASCII decimal digit}; every string of length <= 2 over all 128 ASCII characters and every ASCII character before / inside / after every two-symbol context; plus random "
+            "character class {letter, digit, '_', '.', '-', ':', '/', '#', space, tab, newline, '[', ']', non-ASCII letter, non-ASCII decimal digit}; nine CURIE shapes around each of 56 well-known names (xml, xmlns, http, urn, rdf, GO, true, null ...); every string of length <= 2 over all 128 ASCII characters and every ASCII character before / inside / after every two-symbol context; plus random "
             "strings of length 5..14 mixing the representatives with all ASCII punctuation, exotic whitespace (U+00A0, U+2028, U+001C, U+0085, U+3000), zero-width "
             "space, other letters and digits. Non-trivial: length >= 2 and at least one character that is not an ASCII letter. "
             "Each case carries the whitespace table (str.isspace) of its own characters.")
@@ -47,6 +54,11 @@ class C20(Plugin):
                 x = "".join(t)
                 if x not in seen:
                     out.append(mk(x))
+        for name in NAMES:
+            for y in (name, name + ":1", name + ":lang", name + ":", ":" + name, name + ":a:b", name + "://x", name + ":" + name, name + " :1"):
+                if y not in seen:
+                    seen.add(y)
+                    out.append(mk(y))
         for x in ASCII:
             for a, b in itertools.product(SMALL, repeat=2):
                 for y in (a + x + b, a + b + x, x + a + b):
